@@ -138,7 +138,7 @@ func runMC(c *core.Ctx, runs []mcRun) (states, trans int, details []map[string]i
 	}
 	outs := make([]out, len(runs))
 	var wg sync.WaitGroup
-	sem := make(chan struct{}, max(1, nprocs()/5))
+	sem := make(chan struct{}, max(2, nprocs()/4))
 	for i, r := range runs {
 		wg.Add(1)
 		go func(i int, r mcRun) {
